@@ -16,7 +16,7 @@ FAIL_PAT = re.compile(
     r'recommendation not met|might not be allowed|failed to satisfy|unreachable|'
     r'constructed value may fail to meet its declared type invariant|could not prove termination|'
     r'call to nonterminating|postcondition|precondition|cast|overflow|underflow|possible truncation|'
-    r'not satisfied', re.I)
+    r'not satisfied|unable to prove|post-condition|pre-condition', re.I)
 RLIMIT_PAT = re.compile(r'resource limit|rlimit|timed? ?out|solver.*(cancel|unknown)', re.I)
 
 
